@@ -415,3 +415,266 @@ func minimizeQDoc(raw json.RawMessage) []string {
 func init() {
 	register(&Check{ID: "XQMIN", Level: "model_checking", Replay: minimizeQDoc, Run: func(*core.Ctx, *par.Pool) {}})
 }
+
+// ---- random histories x exhaustive fault plans / crash images at the last operation (diagnostic) ----
+
+type RandTailTask struct {
+	Type string `json:"type"`
+	Mode string `json:"mode"` // "fault" | "crash"
+	Cfg  string `json:"cfg"`
+	Seed int64  `json:"seed"`
+	Len  int    `json:"len"`
+}
+
+type RandTailResult struct {
+	EngineError string           `json:"engine_error,omitempty"`
+	Path        []pagedrv.Op     `json:"path"`
+	Viol        []FaultViolation `json:"viol,omitempty"`
+	CViol       []CrashViolation `json:"cviol,omitempty"`
+	Plans       int              `json:"plans"`
+}
+
+func init() {
+	TaskHandlers["randtail"] = handleRandTail
+	register(&Check{ID: "XFRND", Level: "model_checking", Replay: replayFault, Run: func(ctx *core.Ctx, pool *par.Pool) { runRandTail(ctx, pool, "fault") }})
+	register(&Check{ID: "XCRND", Level: "model_checking", Replay: replayCrash, Run: func(ctx *core.Ctx, pool *par.Pool) { runRandTail(ctx, pool, "crash") }})
+}
+
+// randomPath generates a violation-free random history that ends with an operation doing I/O.
+func randomPath(cfg pagedrv.Cfg, seed int64, n int, resize bool) ([]pagedrv.Op, error) {
+	rng := rand.New(rand.NewSource(seed))
+	alpha := randAlphabet(cfg)
+	if !resize { // the crash oracle does not model the header writes of a resizing open
+		var a []O
+		for _, op := range alpha {
+			if op.K != pagedrv.OReopenWith {
+				a = append(a, op)
+			}
+		}
+		alpha = a
+	}
+	var path []pagedrv.Op
+	var err error
+	xstate.Run(func() {
+		var env *pagedrv.Env
+		env, err = pagedrv.New(cfg)
+		if err != nil {
+			return
+		}
+		for i := 0; i < n && !env.Dead && len(env.Viol) == 0; i++ {
+			var en []O
+			for _, op := range alpha {
+				if op.M == 0 && env.Enabled(op) {
+					en = append(en, op)
+				}
+			}
+			if len(en) == 0 {
+				break
+			}
+			op := en[rng.Intn(len(en))]
+			path = append(path, op)
+			env.Apply(op)
+		}
+		if env.Dead || len(env.Viol) > 0 {
+			err = fmt.Errorf("history not clean: %v", env.Viol)
+		}
+	})
+	// cut back to the last operation that issues I/O
+	for len(path) > 0 {
+		switch path[len(path)-1].K {
+		case pagedrv.OCommit, pagedrv.ORollback, pagedrv.OCloseTx, pagedrv.OReopen, pagedrv.OReopenWith, pagedrv.OFlushTx, pagedrv.OCheckpoint:
+			return path, err
+		}
+		path = path[:len(path)-1]
+	}
+	return path, err
+}
+
+func handleRandTail(raw []byte) interface{} {
+	var t RandTailTask
+	if err := json.Unmarshal(raw, &t); err != nil {
+		return RandTailResult{EngineError: err.Error()}
+	}
+	cfg, ok := pagedrv.CfgByName(t.Cfg)
+	if !ok {
+		return RandTailResult{EngineError: "cfg"}
+	}
+	path, err := randomPath(cfg, t.Seed, t.Len, t.Mode == "fault")
+	if err != nil || len(path) == 0 {
+		return RandTailResult{Path: path} // not a usable history: skip
+	}
+	res := RandTailResult{Path: path}
+	if t.Mode == "fault" {
+		js, _ := json.Marshal(FaultTask{Type: "fault", Cfg: t.Cfg, Path: path, Bursts: []int{1, 2}})
+		r := handleFault(js).(FaultResult)
+		res.EngineError, res.Viol, res.Plans = r.EngineError, r.Viol, r.Plans
+	} else {
+		js, _ := json.Marshal(CrashTask{Type: "crash", Cfg: t.Cfg, Path: path, MaxBits: 6, Tears: false})
+		r := handleCrash(js).(CrashResult)
+		res.EngineError, res.CViol, res.Plans = r.EngineError, r.Viol, r.Images
+	}
+	return res
+}
+
+func runRandTail(ctx *core.Ctx, pool *par.Pool, mode string) {
+	ctx.SetBudget(20 * time.Minute)
+	var tasks [][]byte
+	var meta []RandTailTask
+	for _, cfg := range []string{"A", "B", "D", "C"} {
+		for s := int64(1); s <= 1500; s++ {
+			t := RandTailTask{Type: "randtail", Mode: mode, Cfg: cfg, Seed: s, Len: 8 + int(s%25)}
+			raw, _ := json.Marshal(t)
+			tasks = append(tasks, raw)
+			meta = append(meta, t)
+		}
+	}
+	n, plans := 0, 0
+	pool.Run(tasks, ctx.Deadline, 5*time.Minute, func(i int, out []byte, terr *par.TaskError) {
+		if terr != nil {
+			ctx.EngineError("randtail %v: %s %s", meta[i], terr.Msg, terr.Stderr)
+			return
+		}
+		var r RandTailResult
+		json.Unmarshal(out, &r)
+		n++
+		plans += r.Plans
+		if r.EngineError != "" {
+			ctx.Log("randtail %v [%s]: engine: %s", meta[i], pagedrv.PathString(r.Path), r.EngineError)
+		}
+		for _, v := range r.Viol {
+			rec := v.Recipe
+			ctx.Violate(v.Class, fmt.Sprintf("cfg %s seed %d history [%s]: %s", meta[i].Cfg, meta[i].Seed, pagedrv.PathString(r.Path), v.Msg),
+				map[string]interface{}{"kind": "fault", "task": FaultTask{Type: "fault", Cfg: meta[i].Cfg, Path: r.Path, Bursts: []int{1, 2}, Only: &rec}})
+		}
+		for _, v := range r.CViol {
+			rec := v.Recipe
+			ctx.Violate(v.Class, fmt.Sprintf("cfg %s seed %d history [%s]: %s", meta[i].Cfg, meta[i].Seed, pagedrv.PathString(r.Path), v.Msg),
+				map[string]interface{}{"kind": "crash", "task": CrashTask{Type: "crash", Cfg: meta[i].Cfg, Path: r.Path, MaxBits: 6, Only: &rec}})
+		}
+	}, nil)
+	ctx.Set("histories", n)
+	ctx.Set("plans_or_images", plans)
+}
+
+// ---- random queue histories x exhaustive fault plans / crash images at the last operation (diagnostic) ----
+
+type QRandTailTask struct {
+	Type string   `json:"type"`
+	Mode string   `json:"mode"`
+	Cfg  QCfgSpec `json:"cfg"`
+	Seed int64    `json:"seed"`
+	Len  int      `json:"len"`
+}
+
+type QRandTailResult struct {
+	EngineError string           `json:"engine_error,omitempty"`
+	Path        []Q              `json:"path"`
+	Viol        []FaultViolation `json:"viol,omitempty"`
+	CViol       []CrashViolation `json:"cviol,omitempty"`
+	Plans       int              `json:"plans"`
+}
+
+func init() {
+	TaskHandlers["qrandtail"] = handleQRandTail
+	register(&Check{ID: "XQFRND", Level: "model_checking", Replay: replayQCrash, Run: func(ctx *core.Ctx, pool *par.Pool) { runQRandTail(ctx, pool, "fault") }})
+	register(&Check{ID: "XQCRND", Level: "model_checking", Replay: replayQCrash, Run: func(ctx *core.Ctx, pool *par.Pool) { runQRandTail(ctx, pool, "crash") }})
+}
+
+func handleQRandTail(raw []byte) interface{} {
+	var t QRandTailTask
+	if err := json.Unmarshal(raw, &t); err != nil {
+		return QRandTailResult{EngineError: err.Error()}
+	}
+	cfg, err := t.Cfg.cfg()
+	if err != nil {
+		return QRandTailResult{EngineError: err.Error()}
+	}
+	rng := rand.New(rand.NewSource(t.Seed))
+	alpha := queueAlphabet(cfg.File.PageSize, false)
+	var path []Q
+	clean := true
+	xstate.Run(func() {
+		env, err := queuedrv.New(cfg)
+		if err != nil {
+			clean = false
+			return
+		}
+		for i := 0; i < t.Len && !env.Dead && len(env.Viol) == 0; i++ {
+			var en []Q
+			for _, op := range alpha {
+				if env.Enabled(op) {
+					en = append(en, op)
+				}
+			}
+			if len(en) == 0 {
+				break
+			}
+			op := en[rng.Intn(len(en))]
+			path = append(path, op)
+			env.Apply(op)
+		}
+		clean = !env.Dead && len(env.Viol) == 0 && env.Full == 0
+	})
+	for len(path) > 0 {
+		k := path[len(path)-1].K
+		// (a Reopen under faults is not a usable last step: whether Close flushed the buffered events is not observable)
+		if k == queuedrv.QFlush || k == queuedrv.QAck || k == queuedrv.QWrite || (k == queuedrv.QReopen && t.Mode != "fault") {
+			break
+		}
+		path = path[:len(path)-1]
+	}
+	res := QRandTailResult{Path: path}
+	if !clean || len(path) == 0 {
+		return res
+	}
+	if t.Mode == "fault" {
+		js, _ := json.Marshal(QFaultTask{Type: "qfault", Cfg: t.Cfg, Path: path})
+		r := handleQFault(js).(FaultResult)
+		res.EngineError, res.Viol, res.Plans = r.EngineError, r.Viol, r.Plans
+	} else {
+		js, _ := json.Marshal(QCrashTask{Type: "qcrash", Cfg: t.Cfg, Path: path, MaxBits: 6})
+		r := handleQCrash(js).(CrashResult)
+		res.EngineError, res.CViol, res.Plans = r.EngineError, r.Viol, r.Images
+	}
+	return res
+}
+
+func runQRandTail(ctx *core.Ctx, pool *par.Pool, mode string) {
+	ctx.SetBudget(20 * time.Minute)
+	var tasks [][]byte
+	var meta []QRandTailTask
+	for _, c := range []QCfgSpec{{File: "A", Buffer: 5}, {File: "C", Buffer: 5}, {File: "B", Buffer: 6}, {File: "D", Buffer: 3}, {File: "A", Buffer: 2}} {
+		for s := int64(1); s <= 1200; s++ {
+			t := QRandTailTask{Type: "qrandtail", Mode: mode, Cfg: c, Seed: s, Len: 6 + int(s%22)}
+			raw, _ := json.Marshal(t)
+			tasks = append(tasks, raw)
+			meta = append(meta, t)
+		}
+	}
+	n, plans := 0, 0
+	pool.Run(tasks, ctx.Deadline, 5*time.Minute, func(i int, out []byte, terr *par.TaskError) {
+		if terr != nil {
+			ctx.EngineError("qrandtail %v: %s %s", meta[i], terr.Msg, terr.Stderr)
+			return
+		}
+		var r QRandTailResult
+		json.Unmarshal(out, &r)
+		n++
+		plans += r.Plans
+		if r.EngineError != "" {
+			ctx.Log("qrandtail %v [%s]: engine: %s", meta[i], queuedrv.PathString(r.Path), r.EngineError)
+		}
+		for _, v := range r.Viol {
+			rec := v.Recipe
+			ctx.Violate(v.Class, fmt.Sprintf("queue %s seed %d history [%s]: %s", meta[i].Cfg, meta[i].Seed, queuedrv.PathString(r.Path), v.Msg),
+				map[string]interface{}{"kind": "qfault", "task": QFaultTask{Type: "qfault", Cfg: meta[i].Cfg, Path: r.Path, Only: &rec}})
+		}
+		for _, v := range r.CViol {
+			rec := v.Recipe
+			ctx.Violate(v.Class, fmt.Sprintf("queue %s seed %d history [%s]: %s", meta[i].Cfg, meta[i].Seed, queuedrv.PathString(r.Path), v.Msg),
+				map[string]interface{}{"kind": "qcrash", "task": QCrashTask{Type: "qcrash", Cfg: meta[i].Cfg, Path: r.Path, MaxBits: 6, Only: &rec}})
+		}
+	}, nil)
+	ctx.Set("histories", n)
+	ctx.Set("plans_or_images", plans)
+}
